@@ -51,7 +51,7 @@ type KeyT struct {
 //	["deltas", name] | ["cat", e...] | ["when", cond, expr]
 type Expr []any
 
-// Cond: ["true"] | ["every", k, r] (num % k == r) | ["idsuffix", s] | ["nonempty", expr] | ["not", cond] | ["ge", n] (num >= n)
+// Cond: ["true"] | ["eq", n] (num == n) | ["every", k, r] (num % k == r) | ["idsuffix", s] | ["nonempty", expr] | ["not", cond] | ["ge", n] (num >= n)
 type Cond []any
 
 func (p *Program) Marshal() []byte {
@@ -181,6 +181,8 @@ func Test(c Cond, env Env) bool {
 		return !Test(toCond(c[1]), env)
 	case "ge":
 		return env.Num() >= num(c[1])
+	case "eq":
+		return env.Num() == num(c[1])
 	}
 	panic(fmt.Sprintf("verif-script: unknown condition form %v", c[0]))
 }
